@@ -930,7 +930,11 @@ func genCase(r *rand.Rand) hcase {
 		b := make([]byte, 20)
 		r.Read(b)
 		if i == 1 { // share a long prefix with account 0 (the trie key is sha3(id), so this is only for the id table)
-			copy(b, mustHex(c.Accts[0])[:19])
+			a0 := mustHex(c.Accts[0])
+			copy(b, a0[:19])
+			if b[19] == a0[19] {
+				b[19] ^= 0x80
+			}
 		}
 		c.Accts = append(c.Accts, hex.EncodeToString(b))
 	}
